@@ -112,6 +112,11 @@ def gen_plan(seed, tier):
                 # a component is whatever object was registered: also an
                 # empty container (len 0) or something false
                 "falsy": r.wpick([(5, ""), (1, "len"), (1, "bool")])}
+    if Rng(mix(seed, "othername", c)).chance(0.12):
+      # registered under an explicit name although its class carries a
+      # _core_name of its own (a second instance under an alias): the name
+      # given is the name
+      comps[c].update(via="name", core_name="other")
   waiters = {}
   chained = set()
   for i in range(nwait):
@@ -604,6 +609,9 @@ class Harness(object):
         ns["_core_name"] = c
       elif spec["core_name"] == "over":
         ns["_core_name"] = "dflt_" + c
+      elif spec["core_name"] == "other":
+        ns["_core_name"] = "canon_" + c
+        h.probe("explicit_name_beside_core_name")
       cname = "Comp_" + c
     else:
       cname = c
